@@ -125,7 +125,15 @@ BIN_D = {
     "shl": (lambda A, B: A << B, "shl"),
     "ashr": (lambda A, B: A >> B, "ashr"),
     "radd": (lambda A, B: B + A, "add"),
+    # the set on the right-hand side of a plain interval (reflected operators)
+    "rsub": (lambda A, B: B - A, "rsub"),
+    "rudiv": (lambda A, B: B // A, "rudiv"),
+    "rmod": (lambda A, B: B % A, "rurem"),
+    "rand": (lambda A, B: B & A, "and"),
+    "ror": (lambda A, B: B | A, "or"),
+    "rxor": (lambda A, B: B ^ A, "xor"),
 }
+_RSEM = {"rsub": "sub", "rudiv": "udiv", "rurem": "urem"}
 CMP_D = {"sle": (lambda A, B: A.SLE(B), "sle"), "sgt": (lambda A, B: A.SGT(B), "sgt"), "eq": (lambda A, B: A == B, "eq"), "ne": (lambda A, B: A != B, "ne"), "ult": (lambda A, B: A.ULT(B), "ult"), "ule": (lambda A, B: A.ULE(B), "ule"), "ugt": (lambda A, B: A.UGT(B), "ugt"), "uge": (lambda A, B: A.UGE(B), "uge"), "slt": (lambda A, B: A.SLT(B), "slt"), "sge": (lambda A, B: A.SGE(B), "sge")}
 
 
@@ -228,6 +236,21 @@ def dsis_shard(spec, res, rng):
         if op in BIN_D:
             fn, sem = BIN_D[op]
             if sem in ("shl", "ashr") and any(G.count(t) > 40 for t in tb):
+                continue
+            if sem in _RSEM:
+                # the other operand is a plain interval or a Python integer, and stands on the left
+                if len(tb) > 1:
+                    tb = tb[:1]
+                    gb = pick_members(tb, rng, wide)
+                    desc = [desc[0], [list(tb[0])]]
+                left = B()
+                if rng.random() < 0.3 and gb:
+                    gb = [rng.choice(gb)]
+                    left = gb[0]
+                    desc = [desc[0], ["int", left]]
+                ok, r = apply(res, op, fn, A, left)
+                if ok:
+                    judge_members(res, op, desc, r, itertools.product(ga, gb), lambda a, b: None if _RSEM[sem] in ("udiv", "urem") and a == 0 else bvsem.bvop(_RSEM[sem], b, a, w), "dsis")
                 continue
             ok, r = apply(res, op, fn, A, B())
             if ok:
